@@ -176,3 +176,43 @@ def eval_int(e, env=None):
     if k == "MethodCall" and e["method"] == "bits" and not e["args"]:
         return eval_int(e["recv"], env)
     raise NotConst(k)
+
+
+def subst_paths(node, env):
+    """copy of an expression tree with plain identifiers replaced by the expressions in env"""
+    if isinstance(node, dict):
+        if node.get("k") == "Path" and node.get("path") in env and not node.get("qself"):
+            return env[node["path"]]
+        return {k: subst_paths(v, env) for k, v in node.items()}
+    if isinstance(node, list):
+        return [subst_paths(x, env) for x in node]
+    return node
+
+
+def inline_simple_call(ast, e, crate=None, depth=0):
+    """`helper(a, b)` -> the helper's body with its parameters replaced by the arguments, when helper is a free function of
+    the workspace whose body is a single tail expression over plain identifier parameters (e.g. `fn node_count(nodes: &[Node])
+    -> i32 { nodes.len() as i32 }`); otherwise e unchanged.  References (`&x`) around arguments are looked through."""
+    if depth > 3 or not isinstance(e, dict) or e.get("k") != "Call" or (e.get("func") or {}).get("k") != "Path":
+        return e
+    name = e["func"]["path"].split("::")[-1]
+    fs = ast.free_fn(name, crate)
+    if len(fs) != 1:
+        return e
+    it = fs[0][3]
+    body = it.get("body") or []
+    if len(body) != 1 or body[0].get("k") != "Expr" or body[0].get("semi"):
+        return e
+    params = []
+    for inp in it["sig"]["inputs"]:
+        if inp.get("self") or (inp.get("pat") or {}).get("k") != "Ident":
+            return e
+        params.append(inp["pat"]["name"])
+    if len(params) != len(e.get("args") or []):
+        return e
+    env = {}
+    for p_, a in zip(params, e["args"]):
+        while isinstance(a, dict) and a.get("k") == "Ref":
+            a = a["e"]
+        env[p_] = a
+    return inline_simple_call(ast, subst_paths(body[0]["e"], env), crate, depth + 1)
